@@ -9,22 +9,31 @@ EXTENDS Docs, Json
 
 CONSTANTS DocSet, Matchers, MaxMs, EmitCases
 
-VARIABLES case, emitted
-vars == <<case, emitted>>
+\* res = R(case), computed once per case (TLC re-evaluates operators at every reference).
+\* Initial states only choose the document; the matcher sequence is chosen by a step, so that the
+\* cases are generated and judged by all TLC workers (initial states are processed by one thread).
+VARIABLES doc, picked, case, res, emitted
+vars == <<doc, picked, case, res, emitted>>
 
 MSeqs == UNION {[1..n -> Matchers] : n \in 0..MaxMs}
 Cases == [d : DocSet, ms : MSeqs]
 
 R(c) == ApplyAll(c.ms, c.d)
 
-Init == case \in Cases /\ emitted = FALSE
-Next == /\ EmitCases /\ ~emitted
-        /\ PrintT("@@" \o ToJson([d |-> case.d, ms |-> case.ms, out |-> R(case).d, errs |-> R(case).errs]))
-        /\ emitted' = TRUE /\ UNCHANGED case
+Init == /\ doc \in DocSet /\ picked = FALSE
+        /\ case = [d |-> doc, ms |-> <<>>] /\ res = R(case) /\ emitted = FALSE
+Pick == /\ ~picked /\ picked' = TRUE
+        /\ \E ms \in MSeqs : case' = [d |-> doc, ms |-> ms]
+        /\ res' = R(case')
+        /\ UNCHANGED <<doc, emitted>>
+Emit == /\ EmitCases /\ picked /\ ~emitted
+        /\ PrintT("@@" \o ToJson([d |-> case.d, ms |-> case.ms, out |-> res.d, errs |-> res.errs]))
+        /\ emitted' = TRUE /\ UNCHANGED <<doc, picked, case, res>>
+Next == Pick \/ Emit
 Spec == Init /\ [][Next]_vars
 
 \* C15: a matcher sequence changes only what it targets
-OnlyTargetsChange == \A p \in Paths \ Masked(case.ms) : R(case).d[p] = case.d[p]
+OnlyTargetsChange == \A p \in Paths \ Masked(case.ms) : res.d[p] = case.d[p]
 
 \* C17: no failure => every targeted, present path was replaced; a failing matcher leaves its path
 \* unless another, successful matcher replaced it
@@ -32,7 +41,7 @@ OnlyTargetsChange == \A p \in Paths \ Masked(case.ms) : R(case).d[p] = case.d[p]
 \* same masked document; documents that differ at an unmasked path never do
 MaskedIndependence ==
   \A d2 \in DocSet :
-     LET r1 == R(case)  r2 == ApplyAll(case.ms, d2) IN
+     LET r1 == res  r2 == ApplyAll(case.ms, d2) IN
      (r1.errs = <<>> /\ r2.errs = <<>>) =>
         /\ (Agree(case.d, d2, Paths \ Masked(case.ms)) /\ \A p \in Masked(case.ms) : Has(case.d, p) = Has(d2, p)
                /\ \A i \in DOMAIN case.ms : case.ms[i].m = "type" => TypeOf(case.d[case.ms[i].p]) = TypeOf(d2[case.ms[i].p]))
@@ -41,12 +50,12 @@ MaskedIndependence ==
 
 \* C17: the failures named are exactly the matchers that cannot be satisfied, in order
 FailuresNamed ==
-  LET r == R(case) IN
+  LET r == res IN
   \A i \in DOMAIN r.errs : \E k \in DOMAIN case.ms : <<case.ms[k].name, case.ms[k].p>> = r.errs[i]
 
 \* ErrOnMissingPath(false): a missing path is ignored
 MissingIgnored ==
   \A k \in DOMAIN case.ms :
      (~case.ms[k].eomp /\ \A p \in Paths : ~Has(case.d, case.ms[k].p)) =>
-        ~\E i \in DOMAIN R(case).errs : R(case).errs[i] = <<case.ms[k].name, case.ms[k].p>> /\ case.ms[k].m # "type" /\ case.ms[k].m # "custom"
+        ~\E i \in DOMAIN res.errs : res.errs[i] = <<case.ms[k].name, case.ms[k].p>> /\ case.ms[k].m # "type" /\ case.ms[k].m # "custom"
 =============================================================================
